@@ -13,7 +13,7 @@ model's path-keyed one (stack of paths, path → index map), that the table it c
 sanitising, bounds, state count) is stated. So those theorems hold of the table computed by the
 TRANSLATED loop, for every NFA it is given that represents a model NFA.
 
-Outside: the char-wise `build_double_array` (same shape; tied by K-build only), the prelude
+Outside: the char-wise `build_double_array` (same shape; tied separately: Props/TieLayoutC), the prelude
 Daac/Gen/PreludeDbl.lean (the four `State` setters as field writes — justified by Props/TieAcc),
 four `debug_assert_ne!` statements that the translator drops (listed in the generated header).
 -/
